@@ -156,6 +156,67 @@ def run(ctx):
         pub = KeySet.import_key_set(ks.as_dict(private=False)) if all(k.key_type != "oct" for k in ks.keys) else None
         if pub is not None and [k.kid for k in pub.keys] != [k.kid for k in ks.keys]:
             ctx.report("public key-set export changes kids", {"names": names}, "keyset:public-kids")
+    foreign_jwks(ctx, n_sets)
+
+
+def foreign_jwks(ctx, n_sets):
+    """(e) JWKS documents as a third party publishes them: entries without "kid", entries sharing a kid, mixed. Import
+    must keep every entry, in order, give every key a kid (the RFC 7638 thumbprint where none was given), export them all
+    again, and a token made with key i and the kid the set shows for it must verify against the imported public set."""
+    from joserfc import jws
+    from joserfc.jwk import KeySet
+    rng = ctx.rng
+    for _ in range(n_sets):
+        n = rng.randrange(2, 7)
+        names = rng.sample(POOL, n)
+        mode = rng.choice(["no-kids", "no-kids", "mixed", "shared-kid"])
+        entries, privs = [], []
+        for i, (kn, alg) in enumerate(names):
+            d = K.key(kn, private=True).as_dict(private=True)
+            d.pop("kid", None)
+            if mode == "mixed" and rng.random() < 0.5:
+                d["kid"] = f"given-{i}"
+            if mode == "shared-kid":
+                d["kid"] = "same-for-all" if i < 2 else f"given-{i}"
+            entries.append(d)
+        for private in (True, False):
+            doc = {"keys": [copy.deepcopy(e) if private or e["kty"] == "oct" else {k_: v for k_, v in e.items() if k_ not in ("d", "p", "q", "dp", "dq", "qi", "oth")}
+                            for e in entries]}
+            ctx.count("keyset-foreign-jwks", (repr(names), mode, private), True, f"{mode}:{'private' if private else 'public'}")
+            try:
+                ks = KeySet.import_key_set(copy.deepcopy(doc))
+            except Exception as e:  # noqa: BLE001
+                ctx.report(f"import_key_set refused a well-formed JWKS ({mode}): {err_name(e)}", {"jwks": doc}, f"keyset:foreign:{mode}:refused")
+                continue
+            want_fp = [KC.pub_fingerprint(K.key(kn, private=True).raw_value) for kn, _ in names]
+            got_fp = [KC.pub_fingerprint(k.raw_value) for k in ks.keys]
+            if got_fp != want_fp:
+                ctx.report(f"import_key_set lost or reordered keys: {len(doc['keys'])} entries ({mode}) came back as {len(ks.keys)} keys",
+                           {"jwks": doc, "kept": [k.as_dict(private=False) for k in ks.keys]}, f"keyset:foreign:{mode}:lost")
+                continue
+            if any(not k.kid for k in ks.keys):
+                ctx.report("a key of an imported set has no kid", {"jwks": doc}, f"keyset:foreign:{mode}:no-kid")
+            for e, k in zip(doc["keys"], ks.keys):
+                if "kid" in e and k.kid != e["kid"]:
+                    ctx.report("import_key_set changed a given kid", {"jwks": doc}, f"keyset:foreign:{mode}:kid-changed")
+                if "kid" not in e and k.kid != k.thumbprint():
+                    ctx.report("the kid assigned to a kid-less entry is not its RFC 7638 thumbprint", {"jwks": doc}, f"keyset:foreign:{mode}:kid-not-thumbprint")
+            out = ks.as_dict(private=private if private else None)
+            if len(out["keys"]) != n:
+                ctx.report("as_dict() of an imported set does not export every key", {"jwks": doc}, f"keyset:foreign:{mode}:export")
+            if mode == "shared-kid":
+                continue
+            for i, (kn, alg) in enumerate(names):
+                sk = K.key(kn, private=True)
+                tok = jws.serialize_compact({"alg": alg, "kid": ks.keys[i].kid}, b"for key %d" % i, sk, algorithms=J.ALL_ALGS)
+                try:
+                    ok = jws.deserialize_compact(tok, ks, algorithms=J.ALL_ALGS).payload == b"for key %d" % i
+                    why = "payload differs"
+                except Exception as e:  # noqa: BLE001
+                    ok, why = False, err_name(e)
+                if not ok:
+                    ctx.report(f"a token naming the kid of key {i} of an imported set is rejected by that set: {why}", {"jwks": doc, "token": tok},
+                               f"keyset:foreign:{mode}:verify")
 
 
 def suited(alg, kn):
